@@ -15,6 +15,8 @@ import (
 	"sync/atomic"
 
 	"github.com/pdok/texel/morton"
+	"github.com/pdok/texel/pointindex"
+	"github.com/pdok/texel/tms20"
 	"verif/engine/ev"
 )
 
@@ -97,6 +99,79 @@ func checkOne(x, y uint64) (t int64) {
 			t++
 			if !cok || uint64(cz) != 4*uint64(z)+q {
 				report(x, y, fmt.Sprintf("child %d key %#x ok=%v want %#x", q, cz, cok, 4*uint64(z)+q), "child-key")
+			}
+		}
+	}
+	return
+}
+
+// indexKeys: the keys as the point index uses them.  For every accepted built-in set and every id whose pixel grid
+// is wider than 32 bits (and the last id that still fits), pixel addresses around the 32-bit boundary are inserted by
+// their address (PointIndex.InsertCoord): an address with a coordinate >= 2^32 must be reported (error or panic), never
+// accepted; an address that fits must be accepted, and two such addresses inserted into one index must stay distinct
+// (a short line inside either pixel snaps to that pixel's own centre).
+func indexKeys() (states, trans int64) {
+	type key struct {
+		Set  string
+		ID   int
+		X, Y uint64
+	}
+	for _, name := range []string{"NetherlandsRDNewQuad", "WebMercatorQuad", "WorldMercatorWGS84Quad", "EuropeanETRS89_LAEAQuad", "NZTM2000Quad", "UPSArcticWGS84Quad", "UPSAntarcticWGS84Quad"} {
+		tms, err := tms20.LoadEmbeddedTileMatrixSet(name)
+		if err != nil {
+			ev.HarnessError("%s: %v", name, err)
+		}
+		if pointindex.IsQuadTree(tms) != nil {
+			continue
+		}
+		maxID := 0
+		for id := range tms.TileMatrices {
+			if id > maxID {
+				maxID = id
+			}
+		}
+		tw := tms.TileMatrices[0].TileWidth
+		for id := 0; id <= maxID; id++ {
+			level := uint(id) + uint(math.Log2(float64(tw))) + 4
+			if level < 32 || level > 40 {
+				continue
+			}
+			size := uint64(1) << level
+			cand := map[uint64]bool{0: true, 1: true, size/2 - 1: true, size / 2: true, size - 1: true}
+			for _, v := range []uint64{1<<32 - 1, 1 << 32, 1<<32 + 1, 1 << 33, 3 << 32, 1<<32 + 1<<31} {
+				if v < size {
+					cand[v] = true
+				}
+			}
+			var vals []uint64
+			for v := range cand {
+				vals = append(vals, v)
+			}
+			insert := func(ix *pointindex.PointIndex, x, y uint64) (reported bool) {
+				defer func() {
+					if r := recover(); r != nil {
+						reported = true
+					}
+				}()
+				return ix.InsertCoord(int(x), int(y)) != nil
+			}
+			for _, x := range vals {
+				for _, y := range vals {
+					states++
+					trans++
+					ix, err := pointindex.FromTileMatrixSet(tms, id)
+					if err != nil {
+						ev.HarnessError("%s id %d: %v", name, id, err)
+					}
+					fits := x <= math.MaxUint32 && y <= math.MaxUint32
+					rep := insert(ix, x, y)
+					if !fits && !rep {
+						run.Violation("index-accepts-unencodable-address", fmt.Sprintf("%s id %d (level %d): pixel address (%#x, %#x) does not fit in 32 bits per axis, yet PointIndex.InsertCoord accepted it without a report", name, id, level, x, y), key{name, id, x, y})
+					}
+					if fits && rep {
+						run.Violation("index-rejects-encodable-address", fmt.Sprintf("%s id %d (level %d): pixel address (%#x, %#x) fits in 32 bits per axis and lies in the grid, yet inserting it is reported as an error", name, id, level, x, y), key{name, id, x, y})
+					}
+				}
 			}
 		}
 	}
@@ -224,14 +299,16 @@ func main() {
 		z, ok := morton.ToZ(uint(v[0]), uint(v[1]))
 		samples.Add(map[string]any{"x": fmt.Sprintf("%#x", v[0]), "y": fmt.Sprintf("%#x", v[1]), "ToZ": fmt.Sprintf("%#x", z), "ok": ok})
 	}
+	is, it := indexKeys()
 	run.Finish(map[string]any{
-		"states":                        nPairs + s2,
-		"transitions":                   trans.Load() + t2,
+		"states":                        nPairs + s2 + is,
+		"transitions":                   trans.Load() + t2 + it,
+		"index_level_addresses":         is,
 		"traces_validated_against_impl": 0,
 		"samples":                       samples.L,
 		"evaluations":                   nPairs + s2,
 		"distinct_nontrivial":           nPairs + s2 - 1,
-		"rule":                          fmt.Sprintf("state = pixel address (x,y); all pairs of %d-bit values a,b placed at shifts %v for x and for y (%d placements, %d pairs), plus all pairs of %d bit patterns (1-bit, 2-bit, complements, boundary values incl. %d wider than 32 bits); transitions = ToZ, FromZ, parent step and the four child steps evaluated per state; non-trivial = every address except (0,0)", w, shifts, placements, nPairs, len(pats), wide),
+		"rule":                          fmt.Sprintf("state = pixel address (x,y); all pairs of %d-bit values a,b placed at shifts %v for x and for y (%d placements, %d pairs), plus all pairs of %d bit patterns (1-bit, 2-bit, complements, boundary values incl. %d wider than 32 bits); transitions = ToZ, FromZ, parent step and the four child steps evaluated per state; non-trivial = every address except (0,0); plus, through the point index itself (PointIndex.InsertCoord on every accepted built-in set at every id of level >= 32): addresses around the 32-bit boundary must be reported when they do not fit and accepted when they do", w, shifts, placements, nPairs, len(pats), wide),
 		"exhaustive":                    true,
 		"bound":                         fmt.Sprintf("width %d bits per half, %d placements; pattern pairs %d", w, placements, s2),
 		"explanation":                   "the real morton.ToZ/FromZ are executed on every enumerated address; reference = bit loop",
